@@ -702,7 +702,7 @@ impl Property for C17 {
     }
 
     fn cases(&self, tier: Tier) -> u64 {
-        tier.pick(6_000_000, 800_000_000)
+        tier.pick(12_000_000, 800_000_000)
     }
 
     fn run_tape(&self, tape: &[u8], ctx: &mut Ctx) -> Result<(), Failure> {
